@@ -27,6 +27,12 @@ fn same_ip(v6: bool, a: &[u8; 16], b: &[u8; 16]) -> bool {
 
 /// `extra` other events between issue and check; `who`: what the final check-in presents.
 fn lifetime(extra: usize, v6: bool, who: u8) {
+    lifetime_kinds(extra, v6, who, 3)
+}
+
+/// `max_kind`: interleaved events are drawn from kinds 0..=max_kind (0 nothing, 1 checkout(other ip),
+/// 2 checkin(other ip, issued token), 3 checkout(same ip))
+fn lifetime_kinds(extra: usize, v6: bool, who: u8, max_kind: u8) {
     // ---- symbolic inputs (all drawn first) ----------------------------------------------------
     let ip_bytes: [u8; 16] = kani::any();
     let other_bytes: [u8; 16] = kani::any();
@@ -42,7 +48,7 @@ fn lifetime(extra: usize, v6: bool, who: u8) {
         kani::assume(gap_s[i] <= 3600 && gap_ns[i] < 1_000_000_000);
         i += 1;
     }
-    kani::assume(ev_kind[0] <= 3 && ev_kind[1] <= 3 && ev_kind[2] <= 3);
+    kani::assume(ev_kind[0] <= max_kind && ev_kind[1] <= max_kind && ev_kind[2] <= max_kind);
     kani::assume(!same_ip(v6, &ip_bytes, &other_bytes));
     let ip = ip_from(v6, ip_bytes);
     let other = ip_from(v6, other_bytes);
@@ -211,6 +217,15 @@ fn c06_other_ip_k0_v6() {
 #[kani::stub(crate::info_hash::InfoHash::sha1, crate::verif::stub_sha1)]
 fn c06_lifetime_k3_v4() {
     lifetime(3, false, 0);
+}
+
+#[kani::proof]
+#[kani::unwind(21)]
+#[kani::stub(rand::random, crate::verif::stub_random_distinct)]
+#[kani::stub(crate::info_hash::InfoHash::sha1, crate::verif::stub_sha1)]
+fn c06_lifetime_k3_v4_steady_traffic() {
+    // three interleaved events, each nothing or a get_peers from another IP
+    lifetime_kinds(3, false, 0, 1);
 }
 
 /// Token::new accepts exactly 20 bytes (each length its own concrete instance, content symbolic).
